@@ -193,7 +193,7 @@ func runC07(c *eng.Ctx) {
 	bcAcc := func(e ast.Expr) bool { return isCallNamed(info, e, "GetBindingContext") }
 	var combined types.Object
 	var headAppend *eng.GNode
-	var loop *ast.RangeStmt
+	var loop *eng.ElemLoop
 	for _, n := range g.Nodes {
 		as, ok := n.Node.(*ast.AssignStmt)
 		if !ok || len(as.Rhs) != 1 {
@@ -203,23 +203,22 @@ func runC07(c *eng.Ctx) {
 		if ap == nil || len(ap.Args) != 2 || !ap.Ellipsis.IsValid() || !bcAcc(ap.Args[1]) {
 			continue
 		}
-		if l, isL := eng.LoopOf(a.Decl.Body, as.Pos()).(*ast.RangeStmt); isL {
-			loop = l
+		if eng.LoopOf(a.Decl.Body, as.Pos()) != nil {
+			loop = elemLoopAt(info, a.Decl.Body, as.Pos())
 		} else {
 			headAppend = n
 			combined = eng.SelObj(info, as.Lhs[0])
 		}
 	}
 	okOrder := false
-	if headAppend != nil && loop != nil && others != nil && eng.SelObj(info, loop.X) == others && eng.IsAscendingLoop(info, loop) && loopNoEarlyExit(g, loop) {
+	if headAppend != nil && loop != nil && others != nil && eng.SelObj(info, loop.Base) == others && !loop.Desc && loopNoEarlyExit(g, loop.Stmt) {
 		// head append uses the head task's metadata; loop append uses the loop element's
-		head := g.NodeOf(loop.X)
+		head := loopBodyEntryOf(g, loop.Stmt)
 		okOrder = head != nil && g.OnlyVia(head, func(n *eng.GNode) bool { return n == headAppend }, nil)
-		elem := eng.SelObj(info, loop.Value)
 		inLoop := false
 		eng.InspectNoLit(loop.Body, func(n ast.Node) bool {
 			if as, ok := n.(*ast.AssignStmt); ok && len(as.Rhs) == 1 {
-				if ap := builtinCall(info, as.Rhs[0], "append"); ap != nil && len(ap.Args) == 2 && eng.SelObj(info, ap.Args[0]) == combined && bcAcc(ap.Args[1]) && eng.UsesObj(info, ap.Args[1], elem, false) {
+				if ap := builtinCall(info, as.Rhs[0], "append"); ap != nil && len(ap.Args) == 2 && eng.SelObj(info, ap.Args[0]) == combined && bcAcc(ap.Args[1]) && usesElem(loop, ap.Args[1]) {
 					inLoop = true
 				}
 			}
@@ -324,7 +323,7 @@ func runC07(c *eng.Ctx) {
 			if eng.SelObj(info, s.X) == taskPrm && bv {
 				headTrue = true
 			}
-			if l, isL := eng.LoopOf(a.Decl.Body, as.Pos()).(*ast.RangeStmt); isL && l == loop && !bv && loop != nil && eng.SelObj(info, s.X) == eng.SelObj(info, loop.Value) {
+			if loop != nil && eng.LoopOf(a.Decl.Body, as.Pos()) == loop.Stmt && !bv && loop.IsElem(s.X) {
 				mergedFalse = true
 			}
 			return true
@@ -334,24 +333,22 @@ func runC07(c *eng.Ctx) {
 
 	// ---- R5 compaction
 	r5 := c.Rule("C07.R5", "E-lite:flags", "compaction: a context is left out only when its group is non-empty and equals the next context's group; kept contexts are appended in order", 2)
-	var cLoop *ast.ForStmt
-	eng.InspectNoLit(a.Decl.Body, func(n ast.Node) bool {
-		if fs, ok := n.(*ast.ForStmt); ok {
-			cLoop = fs
+	var cEl *eng.ElemLoop
+	if combined != nil {
+		for _, l := range elemLoopsOver(info, a.Decl.Body, func(x ast.Expr) bool { return eng.SelObj(info, x) == combined }) {
+			cEl = l
 		}
-		return true
-	})
-	if cLoop == nil || combined == nil {
-		r5.Unknown(a.Key+" compaction", a.Decl.Pos(), "compaction loop not found")
+	}
+	if cEl == nil {
+		r5.Unknown(a.Key+" compaction", a.Decl.Pos(), "compaction loop (a loop over every combined context) not found")
 	} else {
+		cLoop := cEl.Stmt
 		var capp *eng.GNode
 		for _, n := range g.Nodes {
 			as, ok := n.Node.(*ast.AssignStmt)
-			if ok && len(as.Rhs) == 1 && eng.LoopOf(a.Decl.Body, as.Pos()) == ast.Stmt(cLoop) {
-				if ap := builtinCall(info, as.Rhs[0], "append"); ap != nil && len(ap.Args) == 2 {
-					if ix, isIx := ast.Unparen(ap.Args[1]).(*ast.IndexExpr); isIx && eng.SelObj(info, ix.X) == combined {
-						capp = n
-					}
+			if ok && len(as.Rhs) == 1 && eng.LoopOf(a.Decl.Body, as.Pos()) == cLoop {
+				if ap := builtinCall(info, as.Rhs[0], "append"); ap != nil && len(ap.Args) == 2 && cEl.IsElem(ap.Args[1]) {
+					capp = n
 				}
 			}
 		}
@@ -371,21 +368,10 @@ func runC07(c *eng.Ctx) {
 				return ok && eq && mentionsGroup(info, a, x) && mentionsGroup(info, a, y)
 			})
 			// skipping: from the body entry, reaching the loop post/head without the append requires both facts
-			var bodyEntry *eng.GNode
-			for _, gn := range g.Nodes {
-				if gn.Node == nil && gn.Block.Stmt == ast.Stmt(cLoop) && gn.Block.Kind.String() == "ForBody" {
-					bodyEntry = gn
-				}
-			}
+			bodyEntry := loopBodyEntryOf(g, cLoop)
 			okSkip := false
 			if bodyEntry != nil {
-				isNext := func(m *eng.GNode) bool {
-					if m.Node != nil || m.Block.Stmt != ast.Stmt(cLoop) {
-						return false
-					}
-					k := m.Block.Kind.String()
-					return k == "ForPost" || k == "ForLoop"
-				}
+				isNext := isLoopHeadOf(cLoop)
 				okSkip = true
 				for _, avoid := range []func(*eng.GEdge) bool{groupNonEmpty, sameAsNext} {
 					reach := g.Reach(eng.Query{From: []*eng.GNode{bodyEntry}, AvoidEdge: avoid, AvoidNode: func(m *eng.GNode) bool { return m == capp || isNext(m) }})
@@ -396,15 +382,13 @@ func runC07(c *eng.Ctx) {
 					}
 				}
 			}
-			r5.Check(okSkip && loopNoEarlyExit(g, cLoop) && eng.IsAscendingLoop(info, cLoop), a.Key+" compaction-skip", capp.Node.Pos(), "skip requires Group != \"\" and next.Group == Group", "a binding context can be left out of the combined list although it is not a grouped context followed by a context of the same group")
+			r5.Check(okSkip && loopNoEarlyExit(g, cLoop) && !cEl.Desc, a.Key+" compaction-skip", capp.Node.Pos(), "skip requires Group != \"\" and next.Group == Group", "a binding context can be left out of the combined list although it is not a grouped context followed by a context of the same group")
 			// the next element is i+1
 			nextOK := false
-			eng.InspectNoLit(cLoop.Body, func(n ast.Node) bool {
-				if ix, ok := n.(*ast.IndexExpr); ok && eng.SelObj(info, ix.X) == combined {
-					if be, isB := ast.Unparen(ix.Index).(*ast.BinaryExpr); isB && be.Op == token.ADD {
-						if v, isC := eng.ConstInt(info, be.Y); isC && v == 1 {
-							nextOK = true
-						}
+			eng.InspectNoLit(cEl.Body, func(n ast.Node) bool {
+				if ix, ok := n.(*ast.IndexExpr); ok {
+					if d, isOff := cEl.Offset(ix); isOff && d == 1 {
+						nextOK = true
 					}
 				}
 				return true
